@@ -63,14 +63,17 @@ type actWorld struct {
 	gpuDim bool // quantities are whole GPUs (else milli-cpu); the other dimension is not requested
 	// milliCpu: in a GPU world every pod also asks 100 milli-cpu (never scarce); a job named here asks this much instead
 	milliCpu map[string]float64
-	vm       *resource_info.ResourceVectorMap
-	nodes    []*node_info.NodeInfo
-	ncpu     []float64
-	queues   []actQueue
-	jobs     []*actJob
-	cache    *stCache
-	ssn      *framework.Session
-	pp       *proportionPlugin
+	// fixedFS: fair shares taken over from an earlier world (the next cycle of the same cluster) instead of fresh inputs
+	fixedFS map[string]float64
+	fs      map[string]float64 // the fair shares symbolicFairShares chose
+	vm      *resource_info.ResourceVectorMap
+	nodes   []*node_info.NodeInfo
+	ncpu    []float64
+	queues  []actQueue
+	jobs    []*actJob
+	cache   *stCache
+	ssn     *framework.Session
+	pp      *proportionPlugin
 }
 
 func (w *actWorld) addNode(name string, cpu float64) {
@@ -297,7 +300,12 @@ func (w *actWorld) symbolicFairShares(bits int) {
 	}
 	for _, q := range w.queues {
 		attrs := w.pp.queues[common_info.QueueID(q.name)]
-		fs := vr.AnyFloatNat("fairShare."+q.name, bits+3)
+		var fs float64
+		if v, ok := w.fixedFS[q.name]; ok {
+			fs = v
+		} else {
+			fs = vr.AnyFloatNat("fairShare."+q.name, bits+3)
+		}
 		share := &attrs.CPU
 		if w.gpuDim {
 			share = &attrs.GPU
@@ -352,6 +360,7 @@ func (w *actWorld) symbolicFairShares(bits int) {
 		}
 		vr.Assume(surplus <= left)
 	}
+	w.fs = fsOf
 }
 
 // placed: every pod of the job was bound or nominated (as recorded by the cluster-facing cache; the
